@@ -62,7 +62,8 @@ CHECKS["C10"] = dict(
          "and permutation loop meet SwapProp/PermProp for all lengths/permutations up to MaxN. The boxes returned "
          "by the real swap/permutation/permute in the five classes are replayed as AdjSwap events and judged "
          "(J10); non-permutations and length mismatches must be refused.",
-    note="Trusted: TLC, projection. Exhaustive for lengths <= MaxN (evidence).",
+    note="Trusted: TLC, projection. Exhaustive for lengths <= MaxN (evidence). Semantic leg: the wire map read off the "
+         "evaluated arrays (Tensor.swap, tensor and circuit diagrams); behaviour-style validation Trace_PermB.",
     ref="5/C10", technique="TLA+ spec + TLC (exhaustive), returned boxes validated as an AdjSwap event log")
 
 CHECKS["C08"] = dict(
@@ -79,14 +80,17 @@ CHECKS["C09"] = dict(
          "Dumped diagrams are evaluated by the real tensor.Functor for every prefix (the state of its "
          "single-pass contraction loop), for every interchange neighbour, the normal form and the "
          "tensor.Diagram.eval route, under three interpretations; TLC compares each tensor exactly (J09).",
-    note="Trusted: TLC, generic-array generator (same formula in Eval!Gen and adapter). Spiders/bubbles/sums not yet.",
+    note="Trusted: TLC, generic-array generator (same formula in Eval!Gen and adapter). Also: multi-wire object images "
+         "(Dim(2, 2), Dim(2, 3)), formal sums and their composites, bubbles (three functions, integer-valued boxes), "
+         "spiders and fusion, rigid transposes (Mat!TransposeT).",
     ref="5/C09", technique="TLA+ evaluation machine + TLC, prefix-wise trace validation against the real functor")
 CHECKS["C19"] = dict(
     text="Cartesian.tla: tuple-rewriting machine (ApplyBox) over a menu of functions of arities 0..3; TLC checks "
          "arity preservation and the naturality squares in the model; every dumped diagram is called on input "
          "tuples in the real library and TLC compares the returned tuple with box-by-box evaluation; Swap/Copy/"
          "Discard(n) by their meaning; naturality squares on code values (J19).",
-    note="Trusted: TLC; function menu defined identically in TLA+ and in the adapter.",
+    note="Trusted: TLC; function menu defined identically in TLA+ and in the adapter. Values: integers, None and a list "
+         "as opaque values; results compared raw (python ==) in the squares; boxes with shared names.",
     ref="5/C19", technique="TLA+ spec + TLC, replay of dumped diagrams, trace validation")
 CHECKS["C20"] = dict(
     text="Layout.tla transcribes make_space/add_box with exactly scaled integer coordinates and states the "
@@ -115,7 +119,8 @@ CHECKS["C03"] = dict(
          "windings, types, boxes with dagger flag/data) in cat, monoidal and rigid; model states of the diagram "
          "machines built along different construction paths (constructor, composition, simulated API histories, "
          "double dagger) and sums of them.",
-    note="Trusted: TLC, the projection. Data payloads from a finite menu.",
+    note="Trusted: TLC, the projection. Data payloads from rotating finite menus (incl. falsy ones). The algebra of types "
+         "(Types.tla: tensor, adjoints, slices, powers) is a further leg.",
     ref="5/C03", technique="TLA+ spec + TLC-generated pairs and paths, trace validation of recorded comparisons")
 
 CHECKS["C18"] = dict(
